@@ -16,6 +16,8 @@ are listed; failures are replayed on the real API.
 """
 from __future__ import annotations
 
+import os
+
 import inspect
 
 import numpy as np
@@ -69,6 +71,8 @@ def build(ck):
     if want("params"):
         _vmap_params(ck)
         _params_concrete(ck)
+    if want("compiled-then-eager"):
+        _trace_then_eager(ck)
     if want("rollout"):
         _vmap_rollout(ck)
     if want("static"):
@@ -194,14 +198,8 @@ def _vmap_params(ck):
                 ck.add(f"params/{nm}/member{b}/out/{'_'.join(map(str, i))}", sym.equal_goal(enc.outs[0][(b,) + i], single.outs[0][i]), facts, family=fam, timeout=120)
 
 
-def _params_concrete(ck):
-    """traced versus eager construction (concrete, reported as such): a stepper built under eqx.filter_vmap /
-    filter_jit from array-valued parameters gives the numbers of the stepper built eagerly from Python floats.
-    The symbolic obligations above compare two TRACED constructions; a constructor that branches on the Python
-    type of a parameter can only be seen by comparing with the eager float path."""
-    fam = "traced (vmap/jit) construction = eager construction from Python floats (concrete)"
-    rng = np.random.default_rng(0)
-    cases = [
+def _concrete_cases():
+    return [
         ("GeneralNonlinearStepper/nonlinear_coefficients", lambda p: G.GeneralNonlinearStepper(1, 1.0, 16, 0.01, nonlinear_coefficients=(p[0], p[1], p[2])), 3),
         ("NormalizedNonlinearStepper/coefficients", lambda p: G.NormalizedNonlinearStepper(1, 16, normalized_nonlinear_coefficients=(p[0], p[1], p[2])), 3),
         ("GeneralConvectionStepper/convection_scale", lambda p: G.GeneralConvectionStepper(1, 1.0, 16, 0.01, convection_scale=p[0]), 1),
@@ -213,11 +211,87 @@ def _params_concrete(ck):
         ("FisherKPP/reactivity", lambda p: S.reaction.FisherKPP(1, 1.0, 16, 0.01, diffusivity=p[0] * 0.01, reactivity=p[1]), 2),
         ("Advection/scalar", lambda p: S.Advection(1, 1.0, 16, 0.01, velocity=p[0]), 1),
         ("Diffusion/scalar", lambda p: S.Diffusion(1, 1.0, 16, 0.01, diffusivity=p[0]), 1),
+        # D = 2 (scalar parameters are expanded per axis there; mixed modes in the state)
+        ("2D/Diffusion/scalar", lambda p: S.Diffusion(2, 1.0, 8, 0.01, diffusivity=p[0] * 0.1), 1),
+        ("2D/Advection/scalar", lambda p: S.Advection(2, 1.0, 8, 0.01, velocity=p[0]), 1),
+        ("2D/AdvectionDiffusion/scalars", lambda p: S.AdvectionDiffusion(2, 1.0, 8, 0.01, velocity=p[0], diffusivity=p[1] * 0.1), 2),
+        ("2D/Dispersion/scalar", lambda p: S.Dispersion(2, 1.0, 8, 0.001, dispersivity=p[0] * 0.01), 1),
+        ("2D/HyperDiffusion/scalar", lambda p: S.HyperDiffusion(2, 1.0, 8, 0.001, hyper_diffusivity=p[0] * 0.001), 1),
+        ("2D/Burgers/diffusivity+scale", lambda p: S.Burgers(2, 1.0, 8, 0.01, diffusivity=p[0] * 0.1, convection_scale=p[1]), 2),
+        ("2D/KuramotoSivashinsky/scales", lambda p: S.KuramotoSivashinsky(2, 10.0, 8, 0.01, gradient_norm_scale=p[0], second_order_scale=p[1], fourth_order_scale=p[2]), 3),
+        ("2D/NavierStokesVorticity/diffusivity+scale+drag", lambda p: S.NavierStokesVorticity(2, 1.0, 8, 0.01, diffusivity=p[0] * 0.1, vorticity_convection_scale=p[1], drag=-p[2]), 3),
+        ("2D/GeneralLinearStepper/coefficients", lambda p: G.GeneralLinearStepper(2, 1.0, 8, 0.01, linear_coefficients=(p[0], p[1], p[2] * 0.1)), 3),
+        ("2D/SwiftHohenberg", lambda p: S.reaction.SwiftHohenberg(2, 10.0, 8, 0.01, reactivity=p[0], critical_number=p[1]), 2),
+        ("3D/Diffusion/scalar", lambda p: S.Diffusion(3, 1.0, 4, 0.01, diffusivity=p[0] * 0.1), 1),
     ]
-    u = jnp.asarray(rng.normal(size=(1, 16))) * 0.3
+
+
+def _concrete_state(nm, make, rng):
+    """a random state of the shape the family expects (eager float build to read the channel count)"""
+    D = int(nm[0]) if nm[:2] in ("2D", "3D") else 1
+    n = {1: 16, 2: 8, 3: 4}[D]
+    C = make([0.5] * 8).num_channels
+    return jnp.asarray(rng.normal(size=(C,) + (n,) * D)) * 0.3
+
+
+def _tte_main():
+    """sub-process body of the 'compiled first, eager afterwards' part: a FRESH interpreter builds each stepper family
+    inside filter_jit(filter_vmap(.)) BEFORE any eager construction, then eagerly from Python floats, then under
+    filter_vmap alone; prints one JSON line per family"""
+    import json
+
+    rng = np.random.default_rng(0)
+    for nm, make, npar in _concrete_cases():
+        P = jnp.asarray(rng.uniform(0.2, 0.9, size=(2, npar)))
+        try:
+            u = _concrete_state(nm, make, rng)
+            first = eqx.filter_jit(eqx.filter_vmap(lambda p: make(p)(u)))(P)
+            eager = jnp.stack([make([float(x) for x in P[i]])(u) for i in range(2)])
+            again = eqx.filter_vmap(lambda p: make(p)(u))(P)
+            e = max(float(jnp.max(jnp.abs(first - eager))), float(jnp.max(jnp.abs(again - eager))))
+            print("TTE " + json.dumps({"name": nm, "ok": bool(e < 1e-9), "detail": f"max deviation {e:.3g}"}), flush=True)
+        except Exception as ex_:  # noqa
+            print("TTE " + json.dumps({"name": nm, "ok": False, "detail": f"raises {type(ex_).__name__}: {str(ex_)[:200]}"}), flush=True)
+
+
+def _run_tte():
+    import json
+    import subprocess
+    import sys
+
+    env = dict(os.environ, PYTHONPATH=os.path.dirname(os.path.dirname(os.path.abspath(ex.__file__))) + os.pathsep + os.path.dirname(os.path.dirname(os.path.abspath(__file__))), JAX_ENABLE_X64="1")
+    out = subprocess.run([sys.executable, "-c", "from checks.c06 import _tte_main; _tte_main()"], capture_output=True, text=True, timeout=1800, env=env, cwd=os.path.dirname(os.path.dirname(os.path.abspath(__file__))))
+    res = [json.loads(ln[4:]) for ln in out.stdout.splitlines() if ln.startswith("TTE ")]
+    return res, out.stderr[-400:]
+
+
+def _trace_then_eager(ck):
+    fam = "compiled parameter sweep first, eager construction afterwards (fresh interpreter, concrete)"
+    res, err = _run_tte()
+    if not res:
+        ck.error(f"trace-then-eager sub-process produced nothing: {err}")
+        return
+    for r in res:
+        def replay(m, r=r):
+            again, _ = _run_tte()
+            now = next((x for x in again if x["name"] == r["name"]), None)
+            return {"reproduced": bool(now is not None and not now["ok"]), "detail": f"{r['name']}: in a fresh interpreter, filter_jit(filter_vmap(build+step)) followed by the eager build: {now['detail'] if now else 'no result'}"}
+
+        ck.add(f"compiled-then-eager/{r['name']}", bool(r["ok"]), [], family=fam, replay=replay)
+
+
+def _params_concrete(ck):
+    """traced versus eager construction (concrete, reported as such): a stepper built under eqx.filter_vmap /
+    filter_jit from array-valued parameters gives the numbers of the stepper built eagerly from Python floats.
+    The symbolic obligations above compare two TRACED constructions; a constructor that branches on the Python
+    type of a parameter can only be seen by comparing with the eager float path."""
+    fam = "traced (vmap/jit) construction = eager construction from Python floats (concrete)"
+    rng = np.random.default_rng(0)
+    cases = _concrete_cases()
     for nm, make, npar in cases:
         P = jnp.asarray(rng.uniform(0.2, 0.9, size=(2, npar)))
         try:
+            u = _concrete_state(nm, make, rng)
             eager = jnp.stack([make([float(x) for x in P[i]])(u) for i in range(2)])
             batched = eqx.filter_vmap(lambda p: make(p)(u))(P)
             jitted = eqx.filter_jit(lambda p: make(p)(u))(P[0])
